@@ -27,7 +27,8 @@ PACKET_TYPE_MAP = {
 
 
 class QuicSession:
-    def __init__(self, packet: Packet, server_ports, keylog: list[Key], portmap):
+    def __init__(self, packet: Packet, server_ports, keylog: list[Key], portmap, keep_original_ports: bool = False):
+        self.keep_original_ports = keep_original_ports
         self.output_buffer = []
         self.greasy_bit = False
         self.keylog = keylog
@@ -125,7 +126,7 @@ class QuicSession:
 
     def build_output(self, metadata: bool):
         if len(self.output_buffer) > 0:
-            output_builder = QUICOutputbuilder(self.output_buffer, self.binary_to_ip(self.server_ip).__str__(), self.binary_to_ip(self.client_ip).__str__(), self.server_port, self.client_port, self.server_mac_addr, self.client_mac_addr, self.portmap, self.ipv6)
+            output_builder = QUICOutputbuilder(self.output_buffer, self.binary_to_ip(self.server_ip).__str__(), self.binary_to_ip(self.client_ip).__str__(), self.server_port, self.client_port, self.server_mac_addr, self.client_mac_addr, self.portmap, self.ipv6, self.keep_original_ports)
             return output_builder.build(metadata)
         else:
             return []
